@@ -20,6 +20,8 @@ type Event struct {
 	Mut   string // "" | flip | trunc | short | wrongmsg
 	Ep    int    // epoch whose share signs
 
+	Vacant []int // transition: share indices of the new epoch that no member holds
+
 	Sync string // syncmode: "off" | "honest"
 	Note string
 }
@@ -209,7 +211,7 @@ func (r *runner) Do(ev Event) Obs {
 	case "transition":
 		// reshare: same secret, new polynomial; ev.Round = first round of the new group
 		tt := w.Genesis + int64(ev.Round-1)*w.Period
-		ep, err := w.newEpoch(ev.From, ev.Claim, tt)
+		ep, err := w.newEpoch(ev.From, ev.Claim, tt, ev.Vacant)
 		if err != nil {
 			panic(err)
 		}
